@@ -382,6 +382,43 @@ macro_rules! flatten_only {
         }}
     };
 }
+/// zero-sized elements with a destructor through every sequence operation: the number of drops is the only trace of such an element, and a
+/// "nothing to move for a zero-sized array" shortcut that skips the write of the operands drops them once here and once with the result
+macro_rules! zst_seq_ops {
+    ($name:ident, $N:ty, $n:literal, $K:ty, $k:literal, $M:ty, $m:literal, $u:literal) => {
+        harness! { unwind $u, fn $name() {
+            let d0 = zdrops();
+            let a = trz_array::<$N>();
+            let a = a.append(TrZ::new());
+            assert!(zdrops() == d0 && zlive() == $n + 1, "append dropped or conjured zero-sized elements");
+            let a = a.prepend(TrZ::new());
+            assert!(zdrops() == d0 && zlive() == $n + 2, "prepend dropped or conjured zero-sized elements");
+            let (h, a) = a.pop_front();
+            let (a, l) = a.pop_back();
+            assert!(zdrops() == d0 && zlive() == $n + 2, "pop_front / pop_back dropped or conjured zero-sized elements");
+            drop(h); drop(l);
+            assert!(zdrops() == d0 + 2 && zlive() == $n);
+            let (x, y): (GenericArray<TrZ, $K>, _) = Split::<TrZ, $K>::split(a);
+            assert!(zdrops() == d0 + 2 && zlive() == $n && x.len() == $k, "split dropped or conjured zero-sized elements");
+            let w = Concat::concat(y, x);
+            assert!(zdrops() == d0 + 2 && zlive() == $n && w.len() == $n, "concat dropped or conjured zero-sized elements");
+            let w = w.append(TrZ::new());
+            let i = any_upto($n);
+            let (r, rest) = if any_bool() { w.remove(i) } else { w.swap_remove(i) };
+            assert!(zdrops() == d0 + 2 && zlive() == $n + 1 && rest.len() == $n, "remove / swap_remove dropped or conjured zero-sized elements");
+            drop(r);
+            drop(rest);
+            assert!(zdrops() == d0 + 3 + $n && zlive() == 0);
+            let nested: GenericArray<GenericArray<TrZ, $N>, $M> = GenericArray::generate(|_| trz_array::<$N>());
+            let flat = nested.flatten();
+            assert!(zdrops() == d0 + 3 + $n && zlive() == $n * $m && flat.len() == $n * $m, "flatten dropped or conjured zero-sized elements");
+            let back: GenericArray<GenericArray<TrZ, $N>, $M> = flat.unflatten();
+            assert!(zdrops() == d0 + 3 + $n && zlive() == $n * $m, "unflatten dropped or conjured zero-sized elements");
+            drop(back);
+            assert!(zdrops() == d0 + 3 + $n + $n * $m && zlive() == 0);
+        }}
+    };
+}
 macro_rules! native_ops {
     ($name:ident, $N:ty, $n:literal, ($($x:ident),*), $u:literal) => {
         harness! { unwind $u, fn $name() {
@@ -473,6 +510,8 @@ pub mod q {
         flatten_ops!(fl_2_3, U2, 2, U3, 3, 10);
         flatten_ops!(fl_3_2, U3, 3, U2, 2, 10);
         flatten_ops!(fl_3_1, U3, 3, U1, 1, 7);
+        zst_seq_ops!(zst_3, U3, 3, U1, 1, U2, 2, 12);
+        zst_seq_ops!(zst_1, U1, 1, U1, 1, U3, 3, 10);
         native_ops!(nat1, U1, 1, (a), 5);
         native_ops!(nat3, U3, 3, (a, b, c), 7);
     }
@@ -505,6 +544,8 @@ pub mod t {
         flatten_ops!(fl_2_2, U2, 2, U2, 2, 8);
         flatten_ops!(fl_4_2, U4, 4, U2, 2, 12);
         flatten_ops!(fl_1_4, U1, 1, U4, 4, 8);
+        zst_seq_ops!(zst_4, U4, 4, U2, 2, U2, 2, 14);
+        zst_seq_ops!(zst_2, U2, 2, U0, 0, U1, 1, 10);
         native_ops!(nat2, U2, 2, (a, b), 6);
         native_ops!(nat5, U5, 5, (a, b, c, d, e), 9);
         native_ops!(nat12, U12, 12, (a, b, c, d, e, f, g, h, i, j, k, l), 16);
